@@ -160,7 +160,8 @@ func init() {
 		New:  "\tcur = r.shrinkStack()\n\tif cur.curChild < len(cur.recDecl.ChildDecls())-1 {\n\t\tr.growStack(stackEntry{recDecl: cur.recDecl.ChildDecls()[cur.curChild+1]})\n\t\tcur.curChild++\n",
 		Rule: "R05h", Substr: "HierarchyReader).recNext", Why: "the parent's child cursor is advanced through a pointer taken before the stack grew"})
 	control(Control{ID: "c13-pooled-buffer-kept", Prop: "C13", File: "extensions/omniv21/fileformat/edi/reader2.go",
-		Old: "func (r *NonValidatingReader) Read() (RawSeg, error) {\n", New: "var scanBufPool sync.Pool\n\nfunc (r *NonValidatingReader) recycleBuf() {\n\tscanBufPool.Put(r.rawSeg.Elems)\n}\n\nfunc (r *NonValidatingReader) Read() (RawSeg, error) {\n",
+		Old: "\t\"unicode/utf8\"\n\n\t\"github.com/jf-tech/go-corelib/ios\"\n\t\"github.com/jf-tech/go-corelib/strs\"\n)\n",
+		New: "\t\"sync\"\n\t\"unicode/utf8\"\n\n\t\"github.com/jf-tech/go-corelib/ios\"\n\t\"github.com/jf-tech/go-corelib/strs\"\n)\n\nvar scanBufPool sync.Pool\n\nfunc (r *NonValidatingReader) recycleBuf() {\n\tscanBufPool.Put(r.rawSeg.Elems)\n}\n",
 		Rule: "R13d", Substr: "recycleBuf", Why: "an object is handed to a pool while the reader keeps referencing it"})
 	control(Control{ID: "c04-remark-open-candidate", Prop: "C04", File: "idr/jsonreader.go",
 		Old:  "\tif sp.xpathExpr != nil && sp.stream == nil && MatchAny(sp.root, sp.xpathExpr) {\n\t\tsp.stream = sp.cur\n\t}\n}\n\n// wrapUpCurAndTargetCheck wraps sp.cur node processing and also checks if the sp.cur is the stream\n// candidate and if it is, then does a final check: a stream candidate is the target if:\n// - If it has finished processing (sp.cur == sp.stream)\n// - Either we don't have a stream filter xpath or the stream filter xpath matches.\nfunc (sp *JSONStreamReader)",
